@@ -72,3 +72,64 @@ Definition task_passes_decode_errors (decode_errors_truthy : bool) : bool := dec
 (* if results_queue is not None and results_collection is not None: raise *)
 Definition resultsmanager_rejects (queue_given collection_given : bool) : bool :=
   (queue_given && collection_given).
+
+From Coq Require Import String.
+From SK Require Import Model.Skel Model.Stm.
+Open Scope string_scope.
+
+(* SearchTask._run_search with SearchTask._simple_search in place of its call *)
+Definition tk_run_search_full : list stm :=
+  [SEv (Call "stats_reset"); SLoop [SIf [SEv (Call "seq_reset")] []]; SEv (Call "apply_global"); SEv (Call "enumerate_lines"); SLoop [SIf [] []; SEv (Call "decode_line"); SLoop [SIf [SEv (Call "apply_single"); SIf [SExit] []] []; SIf [SEv (Call "sequence_search")] [SEv (Call "def_run"); SIf [SExit] []; SEv (Call "new_result"); SEv (Call "buffer_append"); SIf [SEv (Call "flush")] []]]]; SEv (Call "process_sequences"); SIf [SLoop [SIf [SLoop []] []]] []; SExit].
+Definition sk_run_search_full : list ev :=
+  [Call "stats_reset";
+   LoopB;
+   IfB;
+   Call "seq_reset";
+   Else;
+   IfE;
+   LoopE;
+   Call "apply_global";
+   Call "enumerate_lines";
+   LoopB;
+   IfB;
+   Else;
+   IfE;
+   Call "decode_line";
+   LoopB;
+   IfB;
+   Call "apply_single";
+   IfB;
+   Continue;
+   Else;
+   IfE;
+   Else;
+   IfE;
+   IfB;
+   Call "sequence_search";
+   Else;
+   Call "def_run";
+   IfB;
+   Continue;
+   Else;
+   IfE;
+   Call "new_result";
+   Call "buffer_append";
+   IfB;
+   Call "flush";
+   Else;
+   IfE;
+   IfE;
+   LoopE;
+   LoopE;
+   Call "process_sequences";
+   IfB;
+   LoopB;
+   IfB;
+   LoopB;
+   LoopE;
+   Else;
+   IfE;
+   LoopE;
+   Else;
+   IfE;
+   Ret].
